@@ -461,6 +461,125 @@ def r16_6(rep: Report, idx: Index) -> None:
 
 
 # ---------------------------------------------------------------------------
+def _synthetic_error_paths(rep: Report, rid: str, construct: str, fn: ast.FunctionDef, selection) -> None:
+    """Path-condition form of the injected-error rules, independent of how the tests are written:
+    * the synthetic response is returned only on paths that imply `selection` (the request is the one
+      the rule addresses);
+    * the failure counter is incremented only when the request is addressed, code >= 500 and a failure
+      count is configured (`is not None`: a count of 0 is a count);
+    * when the count is exceeded the counter is reset and no synthetic response is sent."""
+    from ..pathcond import (PathCond, atoms_of, entails as pc_entails, f_and, f_not, f_or, parse as pc_parse,
+                            show as pc_show)
+    from ..flow import Disjunctive, Flow
+    from ..core import subst_locals
+    fc_names = {'options.failureCount'}
+    for a in ast.walk(fn):
+        if isinstance(a, (ast.Assign, ast.AnnAssign)) and a.value is not None and norm(a.value) == 'options.failureCount':
+            fc_names.add(norm(a.targets[0] if isinstance(a, ast.Assign) else a.target))
+
+    def is_inc(n):
+        return isinstance(n, ast.Call) and (call_name(n) or '').endswith('increment_error_counter')
+
+    inc_conds: list = []       # (node, formula)
+    err_returns: list = []     # (stmt, state)
+    resets: list = []
+
+    def cond_at(test: ast.AST, env) -> list:
+        """[(call, formula of the operands evaluated before it)] for increment calls inside a test"""
+        out = []
+
+        def walk(e, pre):
+            if isinstance(e, ast.BoolOp) and isinstance(e.op, ast.And):
+                acc = pre
+                for v in e.values:
+                    walk(v, acc)
+                    acc = f_and(acc, pc_parse(v, env))
+                return
+            if isinstance(e, ast.UnaryOp):
+                walk(e.operand, pre)
+                return
+            for c in ast.walk(e):
+                if is_inc(c):
+                    out.append((c, pre))
+        walk(test, ('const', True))
+        return out
+
+    def on_stmt(st, states):
+        if isinstance(st, ast.If):
+            for x in states:
+                for call, pre in cond_at(st.test, dict(x[1])):
+                    inc_conds.append((call, f_and(x[0], pre)))
+            return
+        if isinstance(st, (ast.While, ast.For, ast.With, ast.Try)):
+            return
+        for c in ast.walk(st):
+            if is_inc(c):
+                for x in states:
+                    inc_conds.append((c, x[0]))
+            if isinstance(c, ast.Call) and (call_name(c) or '').endswith('reset_error_counter'):
+                resets.extend(x for x in states)
+        if isinstance(st, ast.Return) and isinstance(st.value, ast.Call) \
+                and call_name(st.value) == 'flask.make_response':
+            err_returns.extend((st, x) for x in states)
+    Flow(Disjunctive(PathCond(), cap=1024), on_stmt=on_stmt).run(fn, [PathCond.initial()])
+    if not err_returns:
+        raise AnalysisError(f'{construct}: no synthetic response is returned')
+    if not inc_conds:
+        rep.fail(rid, construct, 'failure counter', 'the failure counter is never incremented', fn)
+        return
+    atoms: set[str] = set()
+    for _st, x in err_returns:
+        atoms |= atoms_of(x[0])
+    for _c, f in inc_conds:
+        atoms |= atoms_of(f)
+    sel = selection(atoms)
+    if sel is None:
+        rep.fail(rid, construct, 'selected by equality',
+                 'no test selects the addressed request (position compared with the request)', fn)
+        return
+    bad = [x for _st, x in err_returns if pc_entails(x[0], sel) is not True]
+    if bad:
+        rep.fail(rid, construct, 'selected by equality',
+                 f'a synthetic response is returned on a path that does not imply `{pc_show(sel)[:100]}` '
+                 f'(path: {pc_show(bad[0][0])[:120]}): requests that the rule does not address are answered '
+                 'with the error', err_returns[0][0])
+    else:
+        rep.ok(rid, construct, 'selected by equality', pc_show(sel)[:100])
+    ge = [t for t in atoms if t == 'code >= 500']
+    present = [t for t in atoms if any(t == f'{n} is None' for n in fc_names)]
+    truthy = [t for t in atoms if t in fc_names]
+    need_f = f_and(('atom', 'code >= 500'), f_not(('atom', present[0]))) if ge and present else None
+    bad_inc = [f for _c, f in inc_conds
+               if need_f is None or pc_entails(f, need_f) is not True or pc_entails(f, sel) is not True]
+    if bad_inc:
+        rep.fail(rid, construct, 'counter only for the addressed request',
+                 'the failure counter is incremented where the request is not known to be addressed, the code '
+                 f'a 5xx and a failure count configured (condition: {pc_show(bad_inc[0])[:140]})', inc_conds[0][0])
+    else:
+        rep.ok(rid, construct, 'counter only for the addressed request')
+    if truthy or not present:
+        rep.fail(rid, construct, 'failure count of 0 is honoured',
+                 f'the configured failure count is tested by truthiness (`{(truthy or ["?"])[0]}`): `failures=0` '
+                 '(answer 5xx zero times) is treated like "no limit" and the error fires on every request', fn)
+    else:
+        rep.ok(rid, construct, 'failure count of 0 is honoured')
+    # exceeded -> reset and no synthetic response
+    exc_atoms = [t for t in atoms if 'increment_error_counter' in t and ' > ' in t]
+    if not exc_atoms or need_f is None:
+        rep.fail(rid, construct, 'counter reset when exceeded',
+                 'the counter is not compared with the configured failure count', fn)
+        return
+    exceeded = f_and(need_f, ('atom', exc_atoms[0]))
+    ok_reset = bool(resets) and all(pc_entails(x[0], exceeded) is True for x in resets)
+    ok_noerr = all(pc_entails(x[0], f_not(exceeded)) is True for _st, x in err_returns)
+    if ok_reset and ok_noerr:
+        rep.ok(rid, construct, 'counter reset when exceeded')
+    else:
+        rep.fail(rid, construct, 'counter reset when exceeded',
+                 'exceeding the failure count does not reset the counter and serve the request '
+                 f'(reset only when exceeded: {ok_reset}; no synthetic response when exceeded: {ok_noerr})', fn)
+
+
 def _counter_guard(rep: Report, rid: str, construct: str, fn: ast.FunctionDef, after_line: int) -> None:
     """`code >= 500 and <count> is not None and increment(..) > <count>` then reset + continue,
     where <count> is options.failureCount (possibly through a local alias)"""
@@ -527,20 +646,16 @@ def r16_7(rep: Report, idx: Index) -> None:
     construct = f'{mr}::MediaRequestBase.check_for_synthetic_http_error'
     params = [a.arg for a in fn.args.args]
     seg_param = params[2] if len(params) > 2 else None
-    sel = None
-    for n in ast.walk(fn):
-        if isinstance(n, ast.If) and isinstance(n.test, ast.Compare) and len(n.test.ops) == 1 \
-                and seg_param in (norm(n.test.left), norm(n.test.comparators[0])):
-            sel = n
-    if sel is None:
-        raise AnalysisError('synthetic error selection test not found')
-    if isinstance(sel.test.ops[0], ast.NotEq) and isinstance(sel.body[0], ast.Continue):
-        rep.ok(rid, construct, 'selected by equality', norm(sel.test))
-    elif isinstance(sel.test.ops[0], ast.Eq):
-        rep.ok(rid, construct, 'selected by equality', norm(sel.test))
-    else:
-        rep.fail(rid, construct, 'selected by equality',
-                 f'`{norm(sel.test)}` does not select the addressed segment by equality', sel)
+    def media_selection(atoms: set[str]):
+        for t in sorted(atoms):
+            try:
+                e = ast.parse(t, mode='eval').body
+            except SyntaxError:
+                continue
+            if isinstance(e, ast.Compare) and len(e.ops) == 1 and isinstance(e.ops[0], ast.Eq) \
+                    and seg_param in (norm(e.left), norm(e.comparators[0])):
+                return ('atom', t)
+        return None
     # error list chosen by content type
     chosen = {}
     for n in ast.walk(fn):
@@ -555,10 +670,7 @@ def r16_7(rep: Report, idx: Index) -> None:
     else:
         rep.fail(rid, construct, 'error list per content type',
                  f'audio/video requests consult {chosen}', fn)
-    # counter only on matching branch, after the selection test, reset when exceeded
-    for name, f2 in (('media', fn), ('manifest', None)):
-        pass
-    _counter_guard(rep, rid, construct, fn, sel.lineno)
+    _synthetic_error_paths(rep, rid, construct, fn, media_selection)
     # response uses the injected code
     rets = [n for n in ast.walk(fn) if isinstance(n, ast.Return) and n.value is not None
             and isinstance(n.value, ast.Call) and call_name(n.value) == 'flask.make_response']
@@ -584,25 +696,47 @@ def r16_7(rep: Report, idx: Index) -> None:
     sm = need(find_class(mt, 'ServeManifest'), 'ServeManifest')
     mf = need(find_func(sm, 'check_for_synthetic_manifest_error'), 'check_for_synthetic_manifest_error')
     mconstruct = f'{mq}::ServeManifest.check_for_synthetic_manifest_error'
-    ok = False
-    for n in ast.walk(mf):
-        if isinstance(n, ast.If) and norm(n.test) in ('pos != options.updateCount',
-                                                      'options.updateCount != pos') \
-                and isinstance(n.body[0], ast.Continue):
-            ok = True
-    if ok:
-        rep.ok(rid, mconstruct, 'selected by update count equality')
-    else:
-        rep.fail(rid, mconstruct, 'selected by update count equality',
-                 'manifest errors are not selected by equality with the update count', mf)
-    _counter_guard(rep, rid, mconstruct, mf, 0)
-    tw = [n for n in ast.walk(mf) if isinstance(n, ast.If) and 'now < tm' in norm(n.test)
-          and 'now > tm2' in norm(n.test)]
-    if tw and isinstance(tw[0].body[0], ast.Continue):
-        rep.ok(rid, mconstruct, 'time window test')
+    from ..core import subst_locals
+    from ..pathcond import f_and, f_not, f_or
+    window_ok: list = []
+
+    def manifest_selection(atoms: set[str]):
+        eq = lt = gt = isint = None
+        for t in sorted(atoms):
+            try:
+                e = ast.parse(t, mode='eval').body
+            except SyntaxError:
+                continue
+            if isinstance(e, ast.Call) and norm(e.func) == 'isinstance' and len(e.args) == 2 \
+                    and norm(e.args[1]) == 'int':
+                isint = t
+            if not (isinstance(e, ast.Compare) and len(e.ops) == 1):
+                continue
+            l, r = e.left, e.comparators[0]
+            rl = norm(subst_locals(mf, l, allow_calls=True))
+            rr = norm(subst_locals(mf, r, allow_calls=True))
+            if isinstance(e.ops[0], ast.Eq) and 'options.updateCount' in (rl, rr):
+                eq = t
+            begin = r"options\.availabilityStartTime\.replace\(hour=(\w+)\.hour, minute=\1\.minute, second=\1\.second\)"
+            import re as _re
+            if isinstance(e.ops[0], ast.Lt) and rl.endswith(".now") and 'publish' not in rl.lower() \
+                    and _re.fullmatch(begin, rr):
+                lt = t
+            if isinstance(e.ops[0], ast.Gt) and rl.endswith(".now") and 'publish' not in rl.lower() \
+                    and _re.fullmatch(begin + r" \+ datetime\.timedelta\(seconds=options\.minimumUpdatePeriod\)", rr):
+                gt = t
+        window_ok.append(lt is not None and gt is not None)
+        if eq is None or isint is None or lt is None or gt is None:
+            return None
+        return f_or(f_and(('atom', isint), ('atom', eq)),
+                    f_and(f_not(('atom', isint)), f_not(('atom', lt)), f_not(('atom', gt))))
+    _synthetic_error_paths(rep, rid, mconstruct, mf, manifest_selection)
+    if window_ok and window_ok[-1]:
+        rep.ok(rid, mconstruct, 'time window test', 'tm <= now <= tm + minimumUpdatePeriod, tm from the start option')
     else:
         rep.fail(rid, mconstruct, 'time window test',
-                 'time addressed manifest errors are not restricted to [tm, tm + mup]', mf)
+                 'time addressed manifest errors are not restricted to [tm, tm + mup] of the request clock '
+                 '(`now`), with tm = availabilityStartTime with the rule\'s hour/minute/second', mf)
     # literal 5xx responses in handler modules
     allowed_literal_5xx = {
         ('multi_period_streams.py', 'ListStreams.get'):
